@@ -31,7 +31,7 @@ var rerun = map[string]bool{
 	"C14/engine-sequence": true, "C14/odd-names": true, "C17/tls": true, "C17/tlsbin": true, "C18/pool": true,
 }
 
-var engineChecks = map[string]bool{"C05": true, "C07": true, "C14": true, "C16": true, "C17": true}
+var engineChecks = map[string]bool{"C05": true, "C07": true, "C14": true, "C16": true, "C17": true, "C19": true}
 
 func supervise(id, level string) int {
 	_ = os.Remove(evid.JournalPath(id))
